@@ -1,7 +1,38 @@
-import sys, json, time
+import sys, json
 sys.path.insert(0,'/verif')
 from vf import common
 common.bootstrap()
-from vf.checks import c14
-case={"k":1,"hbh":[0x01020304],"perm":[0],"delays":[0.0],"extras":[],"sched":[],"lines":False,"stagger":0.0,"hold":0}
-t=time.time(); vs,info=c14.run_one(case); print(vs, info, round(time.time()-t,2))
+from vf import refdict; refdict.all_classes()
+from vf.checks import c08
+import vf.world as W
+orig=W.World.__exit__
+def ex(self,*a):
+    print("STATE", self.state(), "now", self.sched.now, "steps", self.sched.steps)
+    print("threads", [(t.name,t.state,t.blocked_on,repr(t.exc)[:80]) for t in self.sched.threads])
+    print("socks", [(s.fd,s.kind,s.state,s.closed,len(s.inbox),len(s.outbox)) for s in self.net.socks])
+    print("sent", [(m['cmd'],hex(m['flags'])) for m in self._safe_sent()])
+    a=self.d._association; t=a.transport
+    print("assoc: recvq", len(a._recv_messages._d), "remainder", len(a._recv_stream_remainder), "stream", len(t._recv_data_stream), "avail", t._recv_data_available._flag, "lock", a.lock._locked, a.lock._owner, "tlock", t.lock._locked, "stop", a._stop_threads, t._stop_threads, "mask", t.events_mask)
+    print("log", list(self.sched.log)[-14:])
+    return orig(self,*a)
+c08.World.__exit__=ex
+import bromelia.process as pr
+_o=pr.ProcessCapabilityExchange.__init__
+def spy(self, association, message):
+    _o(self, association, message)
+    print("CEX", hex(message.header.get_flags()), "valid", self.is_valid, self.checklist_mandatory_avps, [ (a.get_code(), a.get_flags()) for a in message.avps])
+pr.ProcessCapabilityExchange.__init__=spy
+import bromelia.setup as su
+_l=su.DiameterMessage.load
+def spyload(stream):
+    try:
+        r=_l(stream); print("LOAD", len(stream), [m.header.get_command_code() for m in r]); return r
+    except BaseException as e:
+        print("LOAD-EXC", len(stream), repr(e)); raise
+su.DiameterMessage.load=staticmethod(spyload)
+_g=su.DiameterAssociation._DiameterAssociation__get_complete_messages_length
+def spyg(self, ds):
+    r=_g(self, ds); print("COMPLETE", len(ds), "->", r, "remainder-before", len(self._recv_stream_remainder)); return r
+su.DiameterAssociation._DiameterAssociation__get_complete_messages_length=spyg
+r=json.load(open(sys.argv[1]))
+print(c08.run_one(r['case']))
